@@ -85,9 +85,9 @@ def flatSeq (r lo : Nat) (hi : Option Nat) (items : List FItem) : Particle :=
 /-- what the theorem assumes about the context of a flat sequence of plain element particles (either XSD
     version, no substitution groups, same name ⇒ same declaration): the lookups of the port return the
     data of the items; the root has `maxOccurs = 1` -/
-structure SeqCtx (M : Ctx) (r : Nat) (items : List FItem) : Prop where
+structure SeqCtxR (M : Ctx) (r : Nat) (rhi : Option Nat) (items : List FItem) : Prop where
   rootSeq : (M.node r).kind = .seq
-  rootHi : (M.node r).hi = some 1
+  rootHi : (M.node r).hi = rhi
   content : (M.node r).content = items.map (·.id)
   elemK : ∀ it ∈ items, (M.node it.id).kind = .elem
   lo : ∀ it ∈ items, (M.node it.id).lo = it.lo
@@ -99,15 +99,18 @@ structure SeqCtx (M : Ctx) (r : Nat) (items : List FItem) : Prop where
   rootId : ∀ it ∈ items, it.id ≠ r
   sameDecl : ∀ it ∈ items, ∀ jt ∈ items, it.name = jt.name → (M.info it.id).ty = (M.info jt.id).ty
 
-variable {M : Ctx} {r : Nat} {items : List FItem}
+/-- the root has `maxOccurs = 1` -/
+abbrev SeqCtx (M : Ctx) (r : Nat) (items : List FItem) : Prop := SeqCtxR M r (some 1) items
 
-theorem SeqCtx.isElem (h : SeqCtx M r items) {it : FItem} (hit : it ∈ items) : M.isElem it.id = true := by
+variable {M : Ctx} {r : Nat} {rhi : Option Nat} {items : List FItem}
+
+theorem SeqCtxR.isElem (h : SeqCtxR M r rhi items) {it : FItem} (hit : it ∈ items) : M.isElem it.id = true := by
   simp [Ctx.isElem, h.elemK it hit]
 
-theorem SeqCtx.key (h : SeqCtx M r items) {it : FItem} (hit : it ∈ items) : M.key it.id = some it.name := by
+theorem SeqCtxR.key (h : SeqCtxR M r rhi items) {it : FItem} (hit : it ∈ items) : M.key it.id = some it.name := by
   rw [key_elem M (h.isElem hit), h.name it hit]
 
-theorem SeqCtx.emptiable (h : SeqCtx M r items) {it : FItem} (hit : it ∈ items) :
+theorem SeqCtxR.emptiable (h : SeqCtxR M r rhi items) {it : FItem} (hit : it ∈ items) :
     M.emptiable it.id = (it.lo == 0) := by
   have hk := h.elemK it hit
   have hl := h.lo it hit
@@ -115,17 +118,17 @@ theorem SeqCtx.emptiable (h : SeqCtx M r items) {it : FItem} (hit : it ∈ items
   unfold Ctx.emptiable emptiableF
   simp only [Ctx.node, hk, hl]
 
-theorem SeqCtx.univocal (h : SeqCtx M r items) {it : FItem} (hit : it ∈ items) :
+theorem SeqCtxR.univocal (h : SeqCtxR M r rhi items) {it : FItem} (hit : it ∈ items) :
     M.univocal it.id = (it.hi == some it.lo) := by
   simp [Ctx.univocal, Ctx.node, ← h.lo it hit, ← h.hi it hit]
 
-theorem SeqCtx.overlap (h : SeqCtx M r items) {it jt : FItem} (hit : it ∈ items) (hjt : jt ∈ items) :
+theorem SeqCtxR.overlap (h : SeqCtxR M r rhi items) {it jt : FItem} (hit : it ∈ items) (hjt : jt ∈ items) :
     M.overlap it.id jt.id = (it.name == jt.name) := by
   cases hv : M.v11 <;>
     simp [Ctx.overlap, h.isElem hit, h.isElem hjt, Ctx.overlapEE, hv, h.name it hit, h.name jt hjt,
       h.plain it hit, h.plain jt hjt, h.nosubs it hit, h.nosubs jt hjt]
 
-theorem SeqCtx.consistent (h : SeqCtx M r items) {it jt : FItem} (hit : it ∈ items) (hjt : jt ∈ items) :
+theorem SeqCtxR.consistent (h : SeqCtxR M r rhi items) {it jt : FItem} (hit : it ∈ items) (hjt : jt ∈ items) :
     M.consistent jt.id it.id = true := by
   by_cases hn : jt.name = it.name
   · have := h.sameDecl jt hjt it hit hn
@@ -157,7 +160,7 @@ theorem drop_take_mid {α : Type} (a : List α) (x : α) (m c : List α) :
   rw [hlen]
   simp
 
-theorem SeqCtx.anyNonEmptiable (h : SeqCtx M r items) (l : List FItem) (hl : ∀ m ∈ l, m ∈ items) :
+theorem SeqCtxR.anyNonEmptiable (h : SeqCtxR M r rhi items) (l : List FItem) (hl : ∀ m ∈ l, m ∈ items) :
     M.anyNonEmptiable (l.map (·.id)) = l.any fun m => m.lo != 0 := by
   induction l with
   | nil => rfl
@@ -210,7 +213,7 @@ theorem SeqCtx.distinguishable (h : SeqCtx M r items) {p1 midl p2 : List FItem} 
     List.zip_nil_right, Ctx.walk, List.getLast?_cons_cons, List.getLast?_singleton, Option.getD_some, hnu]
   simp
 
-theorem SeqCtx.notAny (h : SeqCtx M r items) {it : FItem} (hit : it ∈ items) : M.isAny it.id = false := by
+theorem SeqCtxR.notAny (h : SeqCtxR M r rhi items) {it : FItem} (hit : it ∈ items) : M.isAny it.id = false := by
   simp [Ctx.isAny, h.elemK it hit]
 
 /-- the verdict of the port for one entry of `paths` on a flat sequence -/
